@@ -323,11 +323,11 @@ fn judge_polygon(case: &Case, l: &mut Local) {
             l.check("from_points_ccw returns", "", false, mk, || format!("{:?}", other.map(|r| r.map(|c| c.count()))));
         }
     }
-    // ball pivot over the polygon's vertex set
-    for rad in [0.75, 1.5, 3.0] {
+    // ball pivot over the polygon's vertex set, rolled counter-clockwise and clockwise
+    for (rad, pdir) in [(0.75, AngleDir::Ccw), (1.5, AngleDir::Ccw), (3.0, AngleDir::Ccw), (0.75, AngleDir::Cw), (1.5, AngleDir::Cw), (3.0, AngleDir::Cw)] {
         l.eval();
         verif::set_budget(10_000);
-        let r = guarded(|| ball_pivot_with_centers_2d(&pts, BallPivotStart::StartOnConvex, BallPivotEnd::EndOnRepeat, AngleDir::Ccw, rad).map_err(|e| e.to_string()));
+        let r = guarded(|| ball_pivot_with_centers_2d(&pts, BallPivotStart::StartOnConvex, BallPivotEnd::EndOnRepeat, pdir, rad).map_err(|e| e.to_string()));
         reset_budget();
         match r {
             Err(e) => {
@@ -350,7 +350,7 @@ fn judge_polygon(case: &Case, l: &mut Local) {
                 }
                 l.check("every pivot step has its centre one radius from both hull points and no point strictly inside", "", ok && worst <= 1e-9, mk, || format!("r {}: points {:?} indices {:?} centres {:?}, worst radius error {:e}", rad, pts, idx, centres, worst));
                 // the two other spellings of the same walk: indices only, and the outline filled along the balls
-                match guarded(|| ball_pivot_2d(&pts, BallPivotStart::StartOnConvex, BallPivotEnd::EndOnRepeat, AngleDir::Ccw, rad).map_err(|e| e.to_string())) {
+                match guarded(|| ball_pivot_2d(&pts, BallPivotStart::StartOnConvex, BallPivotEnd::EndOnRepeat, pdir, rad).map_err(|e| e.to_string())) {
                     Ok(Ok(i2)) => {
                         l.check("the index-only pivot reports the same hull points", "", i2 == idx, mk, || format!("r {}: {:?} vs {:?}", rad, i2, idx));
                     }
@@ -359,7 +359,7 @@ fn judge_polygon(case: &Case, l: &mut Local) {
                     }
                 }
                 let spacing = rad / 2.0;
-                match guarded(|| ball_pivot_fill_gaps_2d(&pts, BallPivotStart::StartOnConvex, BallPivotEnd::EndOnRepeat, AngleDir::Ccw, rad, spacing).map_err(|e| e.to_string())) {
+                match guarded(|| ball_pivot_fill_gaps_2d(&pts, BallPivotStart::StartOnConvex, BallPivotEnd::EndOnRepeat, pdir, rad, spacing).map_err(|e| e.to_string())) {
                     Ok(Ok(fill)) => {
                         // every filled point is a hull point or lies on the ball of its step; neighbours are no
                         // farther apart than the spacing; the hull points appear in order
@@ -675,6 +675,10 @@ pub fn cases(tier: Tier) -> Vec<Case> {
                 }
             }
         }
+    }
+    // ... and every ordering of all six (a partial tree over the whole set, visited in another order)
+    for p in perms(6) {
+        out.push(c("partial", p, 0, 0.0));
     }
     // poisson: every ordering of every subset (2..5) of 6 lattice points x radii
     for mask in 1u32..64 {
